@@ -373,8 +373,25 @@ def _check_sub_context(ctx, m, sc):
     attrs = attrs[0]
     ctx.holds('P3', m, src[attrs], 'starts from a copy of all fields', construct='sub_context: '
               + short(src[attrs]))
-    # changed-subset comprehension
+    # changed-subset: a dict comprehension over kwargs.items(), or `X = {}` filled by one loop over
+    # kwargs.items() that stores X[k] = v exactly on the paths where v differs from attrs[k]
     changed = None
+    loop_stores = []
+
+    def _is_diff_test(t, k, val, pol):
+        """(t, pol) says: the new value differs from the current one"""
+        if isinstance(t, ast.UnaryOp) and isinstance(t.op, ast.Not):
+            return _is_diff_test(t.operand, k, val, not pol)
+        pair = {val, '%s[%s]' % (attrs, k)}
+        if isinstance(t, ast.Call) and len(t.args) == 2 and {unparse(a) for a in t.args} == pair:
+            return not pol           # _safe_eq(...) false
+        if isinstance(t, ast.Compare) and len(t.ops) == 1 and \
+                {unparse(t.left), unparse(t.comparators[0])} == pair:
+            if isinstance(t.ops[0], ast.NotEq):
+                return pol
+            if isinstance(t.ops[0], ast.Eq):
+                return not pol
+        return None
     for n, st in src.items():
         v = st.value
         if isinstance(v, ast.DictComp) and len(v.generators) == 1:
@@ -383,23 +400,47 @@ def _check_sub_context(ctx, m, sc):
                 changed = n
                 k, val = [e.id for e in g.target.elts] if isinstance(g.target, ast.Tuple) else (None, None)
                 ok = unparse(v.key) == k and unparse(v.value) == val
-                filt_ok = True
-                for f in g.ifs:
-                    # accepted filter: not _safe_eq(v, attrs[k])  /  v != attrs[k]
-                    t = f
-                    if isinstance(t, ast.UnaryOp) and isinstance(t.op, ast.Not) and \
-                            isinstance(t.operand, ast.Call) and len(t.operand.args) == 2 and \
-                            {unparse(a) for a in t.operand.args} == {val, '%s[%s]' % (attrs, k)}:
-                        continue
-                    if isinstance(t, ast.Compare) and isinstance(t.ops[0], ast.NotEq) and \
-                            {unparse(t.left), unparse(t.comparators[0])} == {val, '%s[%s]' % (attrs, k)}:
-                        continue
-                    filt_ok = False
+                filt_ok = all(_is_diff_test(f, k, val, True) for f in g.ifs) and len(g.ifs) == 1
                 ctx.decide('P3', ok and filt_ok, m, st,
                            'changed subset = the given keys whose value differs from the current one',
                            'the recorded changed-subset drops or alters keys (%s): a changed field '
                            'is not seen by the inherit guards' % short(v),
                            construct='sub_context: changed subset ' + short(v))
+    if changed is None:
+        from .. import symex
+        for lp in [l for l in sc.body if isinstance(l, ast.For) and unparse(l.iter) == kwname + '.items()'
+                   and isinstance(l.target, ast.Tuple) and len(l.target.elts) == 2]:
+            k, val = [unparse(e) for e in lp.target.elts]
+            tgt = [x for x in ast.walk(lp) if isinstance(x, ast.Assign) and isinstance(x.targets[0], ast.Subscript)
+                   and isinstance(x.targets[0].value, ast.Name)]
+            if len(tgt) != 1:
+                continue
+            X = tgt[0].targets[0].value.id
+            init_ok = X in src and ((isinstance(src[X].value, ast.Dict) and not src[X].value.keys) or
+                                    (isinstance(src[X].value, ast.Call) and call_name(src[X].value) == 'dict'
+                                     and not src[X].value.args and not src[X].value.keywords))
+            cases = symex.Walker(want_exits=True, stmt_sink=lambda s_: s_ is tgt[0]).run_block(lp.body)
+            ok = init_ok and unparse(tgt[0].targets[0].slice) == k and unparse(tgt[0].value) == val
+            for cs in cases:
+                if cs.kind in ('break', 'return', 'raise'):
+                    ok = False
+                    continue
+                stored = bool(cs.env.get('#trace'))
+                differs = None
+                for t_, pol in cs.conds:
+                    for a, ap in symex._atoms(t_, pol):
+                        d_ = _is_diff_test(a, k, val, ap)
+                        if d_ is not None:
+                            differs = d_
+                if differs is None or differs != stored:
+                    ok = False
+            changed = X
+            loop_stores.append(tgt[0].targets[0])
+            ctx.decide('P3', ok, m, lp,
+                       'changed subset = the given keys whose value differs from the current one (loop form)',
+                       'the recorded changed-subset drops or alters keys (loop %s): a changed field is '
+                       'not seen by the inherit guards' % short(lp, 60),
+                       construct='sub_context: changed subset loop')
     rec_name = changed or kwname
     upd = [s for s in sc.body if isinstance(s, ast.Expr) and isinstance(s.value, ast.Call)
            and unparse(s.value.func) == attrs + '.update']
@@ -411,7 +452,8 @@ def _check_sub_context(ctx, m, sc):
     extra = []
     for n in ast.walk(sc):
         if isinstance(n, ast.Subscript) and isinstance(n.ctx, (ast.Store, ast.Del)) and \
-                isinstance(n.value, ast.Name) and n.value.id in (attrs, rec_name, kwname):
+                isinstance(n.value, ast.Name) and n.value.id in (attrs, rec_name, kwname) and \
+                not any(n is x for x in loop_stores):
             extra.append(n)
         if isinstance(n, ast.Call) and call_name(n) in ('update', 'pop', 'setdefault', 'clear', 'popitem') \
                 and isinstance(call_recv(n), ast.Name) and call_recv(n).id in (attrs, rec_name, kwname) \
